@@ -131,6 +131,76 @@ theorem C11_deferred_no_format (f : Frame) (fe : Frontend) (args : List Arg) (dy
   rw [hnil] at this
   exact absurd this List.not_mem_nil
 
+/-! ### the budget of the size cache is about C strings -/
+
+/-- **twelve C strings, next to anything that is not a string.** A statement whose arguments are variable-length C
+    strings (`char const*`, `char*`, `char[N]`) and arguments that take no slot — arithmetic/enum/pointer values,
+    `std::string`/`string_view`, deferred-format objects, and `std::vector`/`deque`/`list`/`set`/`map`/`array`/
+    `optional`/`pair`/`tuple` of such, nested arbitrarily (`slotFree`: no C string inside, no container that caches
+    its element count) — caches exactly one length per C string; so with at most as many C strings as the vector's
+    capacity (twelve inline) the size cache does not reallocate, however many other arguments there are. -/
+theorem C11_cstr_budget (c : Cache) (args : List Arg)
+    (h : args.all (fun a => cstrLike a || slotFree a) = true) (hk : countCStr args ≤ c.cap) :
+    (lensL args).length = countCStr args ∧ cacheEvents c args = [] := by
+  have hl := budget_length args h
+  exact ⟨hl, (C11_cache_growth_iff c args).mpr (Or.inl (by omega))⟩
+
+/-- a container of the budget's table (`specKind`: every family but `forward_list`) whose elements take no slot takes
+    no slot itself — `std::list<int>` next to twelve C strings costs nothing; `forward_list` costs one -/
+theorem C11_container_slots (name : String) (ki : KindInfo) (es : Shape) (elems : List Arg)
+    (he : slotFreeL elems = true) :
+    slotFree (.seq (specKind name ki) es elems) = !specPushCount name ∧
+    (lens (.seq (specKind name ki) es elems)).length = if specPushCount name then 1 else 0 := by
+  have gen : ∀ k : KindInfo, (lens (.seq k es elems)).length = if k.pushCount then 1 else 0 := by
+    intro k
+    simp only [lens, slotFreeL_lens elems he, ite_self, List.append_nil]
+    split <;> simp
+  exact ⟨by simp [slotFree, specKind, he], gen (specKind name ki)⟩
+
+/-! ### the queue between log calls: a drained queue grants every record up to its capacity -/
+
+/-- after a backend pass that consumed everything, with the reader position published on drain, a record fits iff
+    it does not exceed the capacity of the thread's current buffer -/
+theorem C11_drained_fits_iff (q : Queue) (pct n : Nat) : (q.drain true pct).fits n = true ↔ n ≤ q.cap := by
+  simp [Queue.fits, Queue.drain]
+
+/-- **a statement that fits the thread's current queue buffer does not allocate once the backend has drained the
+    queue** — after *any* history of log calls and backend passes on that thread (records of any size, any number of
+    them unpublished in between) that ends with a pass consuming everything: registered context, no more cached
+    lengths than the vector's capacity, listed argument types, `total_size ≤ capacity` ⇒ no event at all. -/
+theorem C11_no_events_after_drain (f : Frame) (fe : Frontend) (ops : List FOp) (pct : Nat) (args : List Arg)
+    (dyn : Bool) (h : wfL args = true) (hreg : fe.registered = true)
+    (hcache : (lensL args).length ≤ (Frontend.run f true pct fe (ops ++ [.drain])).cache.cap)
+    (hfit : reserved f (Frontend.run f true pct fe (ops ++ [.drain])).cache args dyn ≤
+              (Frontend.run f true pct fe (ops ++ [.drain])).queue.cap)
+    (hl : listedL args = true) :
+    (logCall f (Frontend.run f true pct fe (ops ++ [.drain])) args dyn).1 = [] := by
+  apply C11_no_events f _ args dyn h (run_registered f true pct _ fe hreg) hcache _ hl
+  rw [run_append] at hfit ⊢
+  simp only [Frontend.run, List.foldl_cons, List.foldl_nil, Frontend.step] at hfit ⊢
+  rw [C11_drained_fits_iff]
+  simpa [drain_cap] using hfit
+
+/-- a record larger than the buffer's capacity cannot be granted by the current node: the queue allocates (when the
+    limit allows) whatever has been consumed -/
+theorem C11_oversize_allocates (q : Queue) (n : Nat) (hn : q.cap < n) (hmax : growTo 64 (2 * q.cap) n ≤ q.maxCap) :
+    (q.reserve n).1 = [.queueGrow (growTo 64 (2 * q.cap) n)] := by
+  have hf : q.fits n = false := by simp [Queue.fits]; omega
+  simp [Queue.reserve, hf, hmax]
+
+/-- **why `commit_read` must publish on drain** (proved negation for the batched-only rule, concrete witness on the
+    default 128 KiB queue): three 36-byte records, each consumed by a complete backend pass, leave 108 consumed but
+    unpublished bytes (the 5 % batch threshold is 6553); a record of `capacity − 8` bytes then does not fit what the
+    producer can see and the *empty* queue allocates a 256 KiB node on the calling thread. With the publish-on-drain
+    clause (obligation `alloc_drain_publishes`) the same history allocates nothing. -/
+theorem C11_drain_without_publish_allocates :
+    let q0 : Queue := { cap := 131072, used := 0, maxCap := 2147483648 }
+    let hist (pub : Bool) : Queue :=
+      ((((((q0.reserve 36).2.getD q0).drain pub 5).reserve 36).2.getD q0).drain pub 5 |>.reserve 36).2.getD q0 |>.drain pub 5
+    (hist false).used = 108 ∧ ((hist false).reserve 131064).1 = [.queueGrow 262144] ∧
+    (hist true).used = 0 ∧ ((hist true).reserve 131064).1 = [] ∧ ((hist true).reserve 131072).1 = [] ∧
+    ((hist true).reserve 131073).1 = [.queueGrow 262144] := by decide
+
 /-! ### finding F16: the map codecs copy their elements -/
 
 /-- `std::map` / `std::unordered_map` as found in the pinned tree (`pairTemp`), and as repaired -/
@@ -184,5 +254,29 @@ example : (logCall frame0 { warm with queue := { cap := 1024, used := 1000, maxC
     [.queueGrow 2048] := by decide
 example : (logCall frame0 warm [.direct [104, 105], .nonpod 8 [0, 0, 0, 0, 0, 0, 0, 0]] false).1 =
     [.formatCall, .formatCall, .userCopy] := by decide
+
+/-- twelve C strings (a null pointer and an unterminated `char[3]` among them) next to a `std::list<int32_t>`, a
+    `vector<string>`, an engaged optional and a pair: twelve cached lengths, no reallocation at the inline capacity —
+    and a `forward_list<int32_t>` in place of the list is the thirteenth slot -/
+def kiListSpec : KindInfo := specKind "list" { hasPrefix := true, fastSize := true, fastEncode := false, pushCount := false, mapLike := false, pairTemp := false }
+def kiFwdSpec : KindInfo := specKind "forward_list" { hasPrefix := true, fastSize := false, fastEncode := false, pushCount := false, mapLike := false, pairTemp := false }
+def twelveCStr : List Arg := List.replicate 10 (.cstr (some [65, 66])) ++ [.cstr none, .carr [120, 121, 122]]
+example : (twelveCStr ++ [Arg.seq kiListSpec (.prim .arith 4) [.prim .arith [1, 0, 0, 0], .prim .arith [2, 0, 0, 0]],
+      .seq kiVec .str [.str [4]], .optSome (.prim .arith [1]), .pair (.prim .arith [1]) (.str [2])]).all
+        (fun a => cstrLike a || slotFree a) = true := by decide
+example : (logCall frame0 warm (twelveCStr ++ [Arg.seq kiListSpec (.prim .arith 4) [.prim .arith [1, 0, 0, 0]]]) false).1 = [] ∧
+    (logCall frame0 warm (twelveCStr ++ [Arg.seq kiFwdSpec (.prim .arith 4) [.prim .arith [1, 0, 0, 0]]]) false).1 = [.cacheGrow 24] ∧
+    (logCall frame0 warm [Arg.seq kiListSpec .cstr (List.replicate 12 (.cstr (some [65])))] false).1 = [] ∧
+    (logCall frame0 warm [Arg.seq kiListSpec .cstr (List.replicate 13 (.cstr (some [65])))] false).1 = [.cacheGrow 24] := by
+  decide
+/-- `C11_no_events_after_drain` on a history: first call, two small records each drained, an undrained one, a drain -/
+example : (logCall frame0 (Frontend.run frame0 true 5 cold
+      ([.log [.prim .arith [1, 0, 0, 0]] false, .drain, .log [.cstr (some [65])] true, .drain, .log [.str [1, 2]] false] ++ [.drain]))
+      [.str (List.replicate 40 113)] false).1 = [] := by decide
+/-- an undrained record counts: 100 bytes in a 128-byte queue, the next 50-byte record allocates; after a drain it fits -/
+example : (logCall frame0 (Frontend.run frame0 true 5 { warm with queue := { cap := 128, used := 0, maxCap := 4096 } }
+      [.log [.str (List.replicate 64 113)] false]) [.str (List.replicate 14 113)] false).1 = [.queueGrow 256] ∧
+    (logCall frame0 (Frontend.run frame0 true 5 { warm with queue := { cap := 128, used := 0, maxCap := 4096 } }
+      [.log [.str (List.replicate 64 113)] false, .drain]) [.str (List.replicate 14 113)] false).1 = [] := by decide
 
 end Codec
